@@ -496,7 +496,7 @@ func main() {
 	kinds := []string{"setcell", "setcell", "setstyle", "fill", "clear", "print", "print", "ptrunc", "println", "wrap", "wrap", "setcell"}
 	n := 3600
 	if cfg.Thorough() {
-		n = 60000
+		n = 200000
 	}
 	for i := 0; i < n; i++ {
 		e := envs[cfg.Rand.Intn(len(envs))]
@@ -545,7 +545,7 @@ func main() {
 	}
 	stride2 := 24989
 	if cfg.Thorough() {
-		stride2 = 131
+		stride2 = 61
 	}
 	k = 0
 	rng := func(p int) (int, int) { return -2, p + 2 }
